@@ -7,10 +7,14 @@ This file is definitions + corollaries of the C09 development (Pdb/Proofs/C09*.l
   IndexInv      := `IdxInv`   every live keyed value is reachable through the index; entries whose
                                slot was freed or reused are inert (DESIGN 6.1)
   SlotInvAbs    := `SlotInv`  on the abstract value tables (address -> (tail, value), per tier a
-                               fill mark and a free list): free-list members and slots at or above
-                               the fill mark hold no value; live addresses lie below the fill
-                               mark; the free list has no duplicate and is in range; every slot
-                               below the fill mark is free or live (no leak)
+                               fill mark, a free list and the continuation slots of the live
+                               multi-slot values, `Tier.chains`): free-list members, continuation
+                               slots and slots at or above the fill mark hold no value; live
+                               addresses lie below the fill mark; "free list ++ continuation
+                               slots" (`Col.dead`) has no duplicate and is in range; every slot
+                               below the fill mark is free, a continuation slot or live (no leak);
+                               one chain per head slot, and the head of every chain is a live value
+                               (no orphan chain)
   NoLeak                       live addresses and live keys are in bijection
 
 The state of the model is the logical state (files + log overlay), so "whenever the pipeline is
@@ -70,15 +74,22 @@ theorem C14_no_misattribution {U : Key → Prop} {s : Col} {m : Key → Option V
   have : k' = k := hU.atail k' k hk' hk (htl.trans htail)
   rw [← this]; exact hm
 
-/-- Removing a key returns its slot: the slot becomes the head of its tier's free list, the fill
-mark does not move, and the next allocation in that tier reuses exactly this slot. -/
+/-- Removing a key returns its slots: the whole chain of the value (head slot, then its
+continuation slots) is pushed on its tier's free list, so the last part ends up on top; the fill
+mark does not move, no chain is recorded for the head any more, and the next allocation in that
+tier reuses the slot on top.  For a one-slot value (`restAt = []`) the free list becomes
+`offset a :: free` and the next allocation returns `offset a`. -/
 theorem C14_remove_returns_slot {U : Key → Prop} {s s' : Col} {m : Key → Option Val}
     (hG : Good U s m) (k : Key) (j i a : Nat) (hs : searchAll s k = some (j, i, a))
     (h : write s k none = .ok s') :
     s'.tailAt a = none ∧
-    (s'.tier (Address.size_tier a)).free = Address.offset a :: (s.tier (Address.size_tier a)).free ∧
+    (s'.tier (Address.size_tier a)).free =
+      (Address.offset a :: s.restAt (Address.size_tier a) (Address.offset a)).reverse ++
+        (s.tier (Address.size_tier a)).free ∧
     (s'.tier (Address.size_tier a)).filled = (s.tier (Address.size_tier a)).filled ∧
-    (s'.alloc (Address.size_tier a)).1 = Address.offset a := by
+    s'.restAt (Address.size_tier a) (Address.offset a) = [] ∧
+    (s'.alloc (Address.size_tier a)).1 =
+      ((Address.offset a :: s.restAt (Address.size_tier a) (Address.offset a)).reverse).headD 0 := by
   have _ := hG
   unfold write at h
   rw [hs] at h
@@ -101,9 +112,49 @@ theorem C14_remove_returns_slot {U : Key → Prop} {s s' : Col} {m : Key → Opt
   have ht := key.2 (Address.size_tier a)
   rw [freed_tier] at ht
   simp only [if_true] at ht
-  refine ⟨by rw [key.1, freed_tailAt]; simp, by rw [ht], by rw [ht], ?_⟩
-  rw [Col.alloc_cons s' (Address.size_tier a) (Address.offset a)
-    (s.tier (Address.size_tier a)).free (by rw [ht])]
+  refine ⟨by rw [key.1, freed_tailAt]; simp, by rw [ht]; rfl, by rw [ht], ?_, ?_⟩
+  · unfold Col.restAt
+    rw [ht]
+    simp only
+    rw [chainRest_chainDrop, if_pos rfl]
+  · cases hx : (Address.offset a :: s.restAt (Address.size_tier a) (Address.offset a)).reverse with
+    | nil => simp at hx
+    | cons o xs =>
+      have hf : (s'.tier (Address.size_tier a)).free = o :: (xs ++ (s.tier (Address.size_tier a)).free) := by
+        rw [ht]
+        show (Address.offset a :: s.restAt (Address.size_tier a) (Address.offset a)).reverse ++ _ = _
+        rw [hx]; rfl
+      rw [Col.alloc_cons s' (Address.size_tier a) o _ hf]
+      rfl
+
+/-- `overwrite_chain` seen from the allocator (`Col.resize`, used when a value is written with
+`m` continuation slots at the head slot `h`): the first `m` old continuation slots are kept,
+missing ones come from the top of the free list and only then from the fill mark, surplus ones
+go to the free list with the last part on top; afterwards the value owns exactly `m`
+continuation slots, and the fill mark moves only by what neither the old chain nor the free list
+could supply. -/
+theorem C14_overwrite_chain_slots (s : Col) (tier h m : Nat) :
+    (s.resize tier h m).restAt tier h =
+      (s.restAt tier h).take m ++ ((s.tier tier).free.take (m - (s.restAt tier h).length) ++
+        List.range' (s.tier tier).filled (m - (s.restAt tier h).length - (s.tier tier).free.length)) ∧
+    ((s.resize tier h m).restAt tier h).length = m ∧
+    ((s.resize tier h m).tier tier).free =
+      ((s.restAt tier h).drop m).reverse ++ (s.tier tier).free.drop (m - (s.restAt tier h).length) ∧
+    ((s.resize tier h m).tier tier).filled =
+      (s.tier tier).filled + (m - (s.restAt tier h).length - (s.tier tier).free.length) := by
+  have ht : (s.resize tier h m).tier tier = (s.tier tier).resize h m := by
+    rw [Col.tier_resize, if_pos rfl]
+  have h1 : (s.resize tier h m).restAt tier h =
+      (s.restAt tier h).take m ++ ((s.tier tier).free.take (m - (s.restAt tier h).length) ++
+        List.range' (s.tier tier).filled (m - (s.restAt tier h).length - (s.tier tier).free.length)) := by
+    unfold Col.restAt
+    rw [ht]
+    simp only [Tier.resize]
+    rw [chainRest_chainPut, if_pos rfl]
+  refine ⟨h1, ?_, by rw [ht]; rfl, by rw [ht]; rfl⟩
+  rw [h1]
+  simp only [List.length_append, List.length_take, List.length_range']
+  omega
 
 /-- A steady insert/remove workload does not grow the tables: the fill mark moves only when the
 tier's free list is empty. -/
@@ -116,7 +167,7 @@ theorem C14_fill_mark_moves_only_when_no_free_slot (s : Col) (tier : Nat)
   | cons o rest =>
     rw [Col.alloc_cons s tier o rest hf]
     refine ⟨?_, by simp⟩
-    have := Col.tier_set s tier tier ⟨(s.tier tier).filled, rest⟩
+    have := Col.tier_set s tier tier ⟨(s.tier tier).filled, rest, (s.tier tier).chains⟩
     simp only [if_true] at this
     rw [this]
 
@@ -134,6 +185,37 @@ theorem C14_iter_values_exact {U : Key → Prop} {s : Col} {m : Key → Option V
     exact ⟨a, k.tail, ha⟩
 
 /-! ## non-vacuity (the concrete history of Pdb/Props/C09.lean) -/
+
+/- multi-slot values (tier 255): a 3-slot value, a 2-slot value, the first one shrunk in place to
+one slot (its two continuation slots are freed, last part on top), the second one removed (its
+chain is freed), a 4-slot value that reuses all four freed slots in free-list order: the fill
+mark stays at 6, the free list is empty, no slot is leaked -/
+def exActsM : List Action :=
+  [.set exK1 255 2 "m1", .set exK2 255 1 "m2", .set exK1 255 0 "m1s", .del exK2, .set exK3 255 3 "m3"]
+
+def exFinalM : Col := (runChecked (Col.init ⟨true, true⟩ 16) exActsM).getD (Col.init ⟨true, true⟩ 16)
+
+theorem exRunM : runChecked (Col.init ⟨true, true⟩ 16) exActsM = some exFinalM := by
+  have : (runChecked (Col.init ⟨true, true⟩ 16) exActsM).isSome = true := by decide +kernel
+  unfold exFinalM
+  cases h : runChecked (Col.init ⟨true, true⟩ 16) exActsM with
+  | none => rw [h] at this; cases this
+  | some s => rfl
+
+theorem exActsM_ok : ∀ a ∈ exActsM, ActOK exU a := by
+  intro a ha
+  simp only [exActsM, List.mem_cons, List.mem_nil_iff, or_false] at ha
+  rcases ha with h | h | h | h | h <;> subst h <;> simp [ActOK, exU, exK1, exK2, exK3]
+
+theorem exHypM : RunHyp exU ⟨true, true⟩ 16 exActsM :=
+  ⟨exU_univ, rfl, rfl, ⟨by decide, by decide⟩, exActsM_ok, (runChecked_sound _ _ _ exRunM).2⟩
+
+example := C14_index_inv_preserved exU _ 16 exActsM exHypM exFinalM (runChecked_sound _ _ _ exRunM).1
+example : (exFinalM.tier 255).filled = 6 ∧ (exFinalM.tier 255).free = [] ∧
+    (exFinalM.tier 255).chains = [(5, [4, 3, 2])] ∧ exFinalM.nLive = 2 ∧
+    lookup exFinalM exK1 = some "m1s" ∧ lookup exFinalM exK2 = none ∧
+    lookup exFinalM exK3 = some "m3" := by decide +kernel
+example := C14_overwrite_chain_slots exFinalM 255 5 1
 
 example := C14_index_inv_preserved exU _ 16 exActs exHyp exFinal (runChecked_sound _ _ _ exRun).1
 example := C14_no_leak exGood
@@ -154,5 +236,6 @@ end Pdb.Index
 #print axioms Pdb.Index.C14_index_inv_preserved
 #print axioms Pdb.Index.C14_no_misattribution
 #print axioms Pdb.Index.C14_remove_returns_slot
+#print axioms Pdb.Index.C14_overwrite_chain_slots
 #print axioms Pdb.Index.C14_fill_mark_moves_only_when_no_free_slot
 #print axioms Pdb.Index.C14_iter_values_exact
